@@ -145,7 +145,7 @@ class Ledger(qsim.Oracle):
             sender, recips = parse_envelope(r["env"])
             # an injection cut short by a crash of the daemon leaves a record with an incomplete
             # envelope: qmail-queue refuses it, nothing was queued
-            r["complete"] = r["env"].endswith(b"\0\0") and r["env"][:1] == b"F"
+            r["complete"] = r["env"].endswith(b"\0\0") and r["env"][:1] == b"F" and r.get("plan", "tee").startswith("tee")
             r["sender"], r["recips"] = sender, recips
             r["notice"] = bouncemodel.parse_notice(r["msg"])
             # the notice carries a copy of the failed message: its parent is the (largest) known
